@@ -17,6 +17,12 @@ CHECKS = {
     note="Trusted: TLC, the 30-line table interpreter (cross-checked by the TLC-validated sample; its disagreements are re-judged by TLC). High nibble of ITF-8's fifth byte unconstrained.",
     technique="TLA+ layout spec, TLC self-consistency + TLC trace validation of real codec calls + spec-exported table sweep",
     engine="Tf8"),
+ "C14": dict(
+    category="model_checking", design_ref="DESIGN.md §5 C14, §4.3",
+    text="CacheP states the Cache contract, the eviction policies and the no-stale-mapping rule under the reader's recycling discipline; CacheI models the code's list discipline; TLC checks CacheI => CacheP (refinement + invariants) exhaustively per policy; every history of 3 (quick) / 4 (thorough) operations and seeded long histories are executed on the real LRU/FIFO/Random and every call, reply and full Peek/Len/Cap observation is validated by TLC against CacheP (verdict) and CacheI (conformance); concurrent call/return histories of 2-4 goroutines are checked for linearizability by TLC search over CacheP.",
+    note="Trusted: TLC; the verif-tagged block factory in package bgzf; watchdog (hang = over threshold AND goroutine parked in a sync primitive of the cache package). Concurrent histories are observed, not scheduled: overlap is whatever the Go scheduler produces.",
+    technique="TLA+ P-spec/I-spec refinement checked by TLC + TLC trace validation of sequential histories + TLC linearizability search on concurrent histories",
+    engine="BlockCache"),
 }
 NA_REASON = "check not built yet in this round (specification work in progress; see DESIGN.md §10 build order)"
 
@@ -47,8 +53,9 @@ def main():
         not_applicable=na)
     json.dump(m, open(os.path.join(V, "MANIFEST.json"), "w"), indent=1)
 
-HOOK_COMMITS = ["4b6c86a"]
+HOOK_COMMITS = ["4b6c86a", "f712ea4"]
 ENGINES = [
+ dict(name="BlockCache", path="spec/BlockCache", serves_properties=["C14", "C03"], kind_free_text="TLA+ CacheP/CacheI/CacheLin + TLC MC + trace validation + linearizability search"),
  dict(name="Tf8", path="spec/Tf8", serves_properties=["C20"], kind_free_text="TLA+ bit-layout spec + TLC MC + trace validation + exported-table sweep"),
  dict(name="ChunkMerge", path="spec/ChunkMerge", serves_properties=["C17"], kind_free_text="TLA+ MergeP/MergeI + TLC MC + trace validation"),
 ]
